@@ -29,21 +29,27 @@ def main():
     checks = [prop]
     tier = "quick"
     skip_suite = "--skip-suite" in sys.argv
+    deselect = [a.split("=", 1)[1] for a in sys.argv[4:] if a.startswith("--deselect=")]
     for a in sys.argv[4:]:
         if a.startswith("--checks"):
             checks = a.split("=", 1)[1].split(",")
         if a.startswith("--tier"):
             tier = a.split("=", 1)[1]
+    src = os.path.abspath(src)
     patch = os.path.join(src, "patch.diff")
     demo = os.path.join(src, "demo_test.py")
-    meta = {"name": name, "property": prop, "when": time.strftime("%Y-%m-%d %H:%M:%S"), "steps": {}}
+    meta = {"name": name, "property": prop, "when": time.strftime("%Y-%m-%d %H:%M:%S"), "steps": {},
+            "repo_head": subprocess.check_output(["git", "-C", "/repo", "rev-parse", "--short", "HEAD"], text=True).strip()}
     d = tempfile.mkdtemp(prefix="seeded.")
     try:
         subprocess.check_call(["rsync", "-a", "--exclude", ".git", "--exclude", "__pycache__", "--exclude", "OUT", "/repo/", d + "/"])
         env = dict(os.environ, PYTHONPATH=d, PYTHONDONTWRITEBYTECODE="1")
         shutil.copy(demo, os.path.join(d, "seeded_demo_test.py"))
         # demo on the unchanged tree
-        rc0, out0 = run([PY, "-m", "pytest", "-q", "-p", "no:cacheprovider", "--timeout=300", "seeded_demo_test.py"], cwd=d, env=env)
+        dsel = [x for t in deselect for x in ("--deselect", "seeded_demo_test.py::" + t)]
+        if deselect:
+            meta["demo_deselected"] = deselect
+        rc0, out0 = run([PY, "-m", "pytest", "-q", "-p", "no:cacheprovider", "--timeout=300", "seeded_demo_test.py"] + dsel, cwd=d, env=env)
         meta["steps"]["demo_without_change"] = {"rc": rc0, "tail": out0[-400:]}
         rc, out = run(["patch", "-p1", "-s", "-i", patch], cwd=d)
         if rc != 0:
@@ -53,13 +59,14 @@ def main():
             print("PATCH DOES NOT APPLY", out)
             meta["confirmed"] = False
         else:
-            rc1, out1 = run([PY, "-m", "pytest", "-q", "-p", "no:cacheprovider", "--timeout=300", "seeded_demo_test.py"], cwd=d, env=env)
+            rc1, out1 = run([PY, "-m", "pytest", "-q", "-p", "no:cacheprovider", "--timeout=300", "seeded_demo_test.py"] + dsel, cwd=d, env=env)
             meta["steps"]["demo_with_change"] = {"rc": rc1, "tail": out1[-600:]}
             if skip_suite:
                 rc2, out2 = -1, "skipped in this invocation"
             else:
-                rc2, out2 = run([PY, "-m", "pytest", "-q", "-p", "no:cacheprovider", "--timeout=900", "tests", "--ignore=tests/integration",
-                                 "--deselect", "tests/test_hypothesis.py::test_job_creation"], cwd=d, env=env)
+                # private network namespace: the suite's health-check tests bind fixed ports
+                inner = f"ip link set lo up; cd {d} && PYTHONPATH={d} {PY} -m pytest -q -p no:cacheprovider --timeout=900 tests --ignore=tests/integration --deselect tests/test_hypothesis.py::test_job_creation"
+                rc2, out2 = run(["unshare", "-rn", "bash", "-c", inner], cwd=d, env=env)
                 meta["steps"]["suite_with_change"] = {"rc": rc2, "tail": out2[-300:]}
             meta["confirmed"] = bool(rc0 == 0 and rc1 != 0 and rc2 == 0) if not skip_suite else None
             print(f"demo without change rc={rc0}, with change rc={rc1}, suite with change rc={rc2} -> confirmed={meta['confirmed']}")
@@ -77,9 +84,10 @@ def main():
         shutil.rmtree(d, ignore_errors=True)
     dst = os.path.join(HERE, "seeded", name)
     os.makedirs(dst, exist_ok=True)
-    shutil.copy(patch, os.path.join(dst, "patch.diff"))
-    shutil.copy(demo, os.path.join(dst, "demo_test.py"))
-    if os.path.exists(os.path.join(src, "NOTES.md")):
+    if os.path.realpath(src) != os.path.realpath(dst):
+        shutil.copy(patch, os.path.join(dst, "patch.diff"))
+        shutil.copy(demo, os.path.join(dst, "demo_test.py"))
+    if os.path.realpath(src) != os.path.realpath(dst) and os.path.exists(os.path.join(src, "NOTES.md")):
         shutil.copy(os.path.join(src, "NOTES.md"), os.path.join(dst, "NOTES.md"))
     old = {}
     mp = os.path.join(dst, "meta.json")
